@@ -9,6 +9,7 @@ import os
 from ..cfg import cfg_of
 from ..model import AnalysisError, call_name, calls_in, dotted, norm
 from .. import inline, machines, rules
+from .. import conds as cnd
 
 REF = os.path.join(os.path.dirname(os.path.dirname(__file__)), "reference", "e30_comm.json")
 
@@ -115,6 +116,12 @@ def check_message_received(ctx):
         ctx.ob("C07.P1", q, ok, "application messages reach callbacks only while the state is COMMUNICATING" if ok else
                f"the callback dispatcher is reached under {sc if sc else 'no test of the communication state'}: messages are handed to user callbacks while communication is not established (e.g. in DISABLED or NOT_COMMUNICATING)",
                key="gate", where=f.where)
+        # ... and in COMMUNICATING they always do: no other state is required to hold, nothing else is tested on the way
+        others = sorted((m, v) for m, v in sc if m != "COMMUNICATING" and v)
+        extra = sorted((t, pol) for t, pol in cnd.facts(cfg, n) if not t.startswith("self._communication_state.current == CommunicationState."))
+        ok = not others and not extra
+        ctx.ob("C07.P1", q, ok, "every message received while COMMUNICATING is handed to the callback dispatcher" if ok else
+               f"the callback dispatcher is reached only under {others + extra} as well: messages received in COMMUNICATING are dropped, no primary is answered any more", key="gate-open", where=f.where)
         c = next(c for c in n.calls if call_name(c) in ("self._handle_stream_function", "super()._on_message_received"))
         ok = bool(c.args) and norm(c.args[0]) in (param, dp)
         ctx.ob("C07.P1", q, ok, "the received message is what is dispatched" if ok else f"`{norm(c)}` does not pass the received message", key="dispatch-arg", where=f.where)
@@ -129,6 +136,18 @@ def check_message_received(ctx):
         s, fx = _sf_conds(cfg, n, param)
         ok = (s, fx) == (1, fnum)
         ctx.ob("C07.P2", q, ok, f"s1f{fnum}received() only for stream 1 function {fnum}" if ok else f"s1f{fnum}received() is called for S{s}F{fx}", key=f"sf s1f{fnum}", where=f.where)
+    # the S1F14 written in WAIT_CRA: the host answers with an empty MDLN list, the equipment with model and software revision (E30)
+    replies = [(n, c) for n in cfg.real_nodes() for c in n.calls if call_name(c) == "self.send_response"]
+    for n, c in replies:
+        body = rules.expand(fn, c.args[0]) if c.args else ""
+        host = {pol for t, pol in cnd.facts(cfg, n) if t == "self._is_host"}
+        if "stream_function(1, 14)" not in body or len(host) != 1:
+            continue
+        is_host = next(iter(host))
+        want = "'MDLN': []" if is_host else "'MDLN': [self._mdln, self._softrev]"
+        ok = want in body
+        ctx.ob("C07.P2", q, ok, f"the {'host' if is_host else 'equipment'} answers S1F13 with {want}" if ok else
+               f"the {'host' if is_host else 'equipment'} side answers S1F13 with `{body[:120]}`: E30 prescribes {want} (the peer refuses or misreads the reply)", key=f"s1f14-body {'host' if is_host else 'equipment'}", where=f.where)
     # COMMACK of the received S1F14
     tainted14 = rules.taint(fn, lambda x: isinstance(x, ast.Attribute) and x.attr == "COMMACK")
     ok = _guarded_by_zero(cfg, t14[0], lambda e: rules.expr_depends_on(e, tainted14, lambda x: isinstance(x, ast.Attribute) and x.attr == "COMMACK"))
